@@ -14,6 +14,7 @@ import CookModel.Lemmas.LooseStep
 import CookModel.Lemmas.LooseFront
 import CookModel.Lemmas.TableFacts
 import CookModel.Lemmas.AdvQtyComment
+import CookModel.Lemmas.TextModeSwitch
 /-
   C17  Line endings, comments and blank space do not change the recipe.
 
@@ -2135,5 +2136,121 @@ theorem C17_advanced_quantity_defect_before_repair {α : Type} [Arith α] (e : E
 
 /-- the tokens of the statement are those of `1 kg` and `1 [- c -]kg` -/
 example : a17qPlain.flatMap (·.text) = "1 kg".toList ∧ a17qGlued.flatMap (·.text) = "1 [- c -]kg".toList := by decide
+
+-- ===== w6c17docwf =====
+/-! ## Wave 6 (notes/audit-C17.md, "Wave 6"): the text-mode exclusion as a decidable predicate on the
+    event list — the `_modes_off` theorems for EVERY extension set (in particular `Extensions::all()`,
+    which has MODES on) -/
+
+/-- **The text-mode exclusion, decidable.**  `TextSwitchFree cs evs` (a `Bool`): no event of the list
+    is a `>>` entry whose trimmed key is `[define]` or `[mode]` and whose trimmed value is `text`.
+    For the events of the pull parser on ANY input, under ANY extension set (MODES on or off), this
+    implies `TextModeFree`: the analysis never copies a component's source text into a text block.
+    (With MODES on the define mode changes only at such entries; the other values — `all`, `default`,
+    `components`, `ingredients`, `steps`, an invalid value — never give mode `text`.)  The exclusion
+    itself is necessary: `C17_text_mode_exclusion_needed`. -/
+theorem C17_text_switch_free_text_mode_free {α : Type} [Arith α] (env : Env) (s : List Char)
+    (hfree : TextSwitchFree env.cs (pullEvents (α := α) env.cs env.ext s).1.toList = true) :
+    TextModeFree env s (pullEvents (α := α) env.cs env.ext s).1.toList {} :=
+  w6m_pullEvents_textModeFree env s hfree
+
+/-- one event: an event that is not such a switch never makes the define mode `text` -/
+theorem C17_define_mode_text_only_by_switch {α : Type} [Arith α] (env : Env) (input : Str) (ev : Ev α)
+    (hev : ev.w6mSetsText env.cs = false) (c : Col α) (hd : c.defineMode ≠ .text) :
+    (processEvent env input ev c).2.defineMode ≠ .text := w6m_processEvent env input ev hev c hd
+
+/-- **CRLF conversion, every backslash-free input, every extension set** (MODES on included): when
+    the events of the LF source contain no switch to define mode `text`, `parse (crlf s)` and
+    `parse s` are `ResSim`-related — equal sections, steps, items, text items, tables, metadata map,
+    same validity, diagnostics of the same kinds in the same order. -/
+theorem C17_crlf_recipe {α : Type} [Arith α] (env : Env) (hcs : CrlfSpec env.cs) (hu : UwsNL env.cs)
+    (s : List Char) (hs : CrlfSafe s)
+    (hfree : TextSwitchFree env.cs (pullEvents (α := α) env.cs env.ext s).1.toList = true) :
+    ResSim env.cs.uws (parseRecipe (α := α) env (crlf s)) (parseRecipe (α := α) env s) :=
+  crlf_parseRecipe_sim env hcs hu s hs (w6m_pullEvents_textModeFree env s hfree)
+
+/-- … in the vocabulary of the property -/
+theorem C17_crlf_same_recipe {α : Type} [Arith α] (ws : Char → Bool) (env : Env) (hcs : CrlfSpec env.cs)
+    (hu : UwsNL env.cs) (s : List Char) (hs : CrlfSafe s)
+    (hfree : TextSwitchFree env.cs (pullEvents (α := α) env.cs env.ext s).1.toList = true) :
+    SameRecipe ws (parseRecipe (α := α) env (crlf s)) (parseRecipe (α := α) env s) :=
+  a17_resSim_same ws (C17_crlf_recipe (α := α) env hcs hu s hs hfree)
+
+/-- **From loose events to the same recipe, every extension set**: two sources whose `PullParser`
+    events are `EvLoose`-related parse to the same recipe when the events of the second contain no
+    switch to define mode `text`. -/
+theorem C17_events_loose_same_recipe {α : Type} [Arith α] (ws : Char → Bool) (env : Env) (s' s : List Char)
+    (h : LRel (EvLoose env.cs) (pullEvents (α := α) env.cs env.ext s').1.toList (pullEvents (α := α) env.cs env.ext s).1.toList)
+    (hfree : TextSwitchFree env.cs (pullEvents (α := α) env.cs env.ext s).1.toList = true) :
+    SameRecipe ws (parseRecipe (α := α) env s') (parseRecipe (α := α) env s) :=
+  a17_resSim_same ws (bl17_parseRecipe_loose env s' s h (w6m_pullEvents_textModeFree env s hfree))
+
+/-- **Extra blank / comment-only line in the source (no front matter), every extension set.** -/
+theorem C17_extra_blank_line_source_same_recipe {α : Type} [Arith α] (ws : Char → Bool) (env : Env) (hu : UwsNL env.cs)
+    (u e0 e x : List Char) (L : List (List Tok)) (hlu : lex env.cs u = L.flatten) (hL : ∀ l ∈ L, IsLine l)
+    (hE0 : EmptyLine (lexFrom env.cs (utf8Len u) e0)) (hE : EmptyLine (lexFrom env.cs (utf8Len u + utf8Len e0) e))
+    (h1 : parseFrontmatter env.cs (u ++ (e0 ++ (e ++ x))) = none) (h2 : parseFrontmatter env.cs (u ++ (e0 ++ x)) = none)
+    (hfree : TextSwitchFree env.cs (pullEvents (α := α) env.cs env.ext (u ++ (e0 ++ x))).1.toList = true) :
+    SameRecipe ws (parseRecipe (α := α) env (u ++ (e0 ++ (e ++ x)))) (parseRecipe (α := α) env (u ++ (e0 ++ x))) :=
+  a17_resSim_same ws
+    (blank_line_source_recipe env hu u e0 e x L hlu hL hE0 hE h1 h2 (w6m_pullEvents_textModeFree env _ hfree))
+
+/-- **A further blank line in front of the front matter, every extension set.** -/
+theorem C17_blank_line_before_frontmatter_same_recipe {α : Type} [Arith α] (ws : Char → Bool) (env : Env)
+    (hu : UwsNL env.cs) (e : List Char) (B Y : List (List Char)) (f1 f2 X : List Char)
+    (he : StrLine e ∧ (trim env.cs.uws e).isEmpty = true)
+    (hB : ∀ l ∈ B, StrLine l ∧ (trim env.cs.uws l).isEmpty = true)
+    (hf1 : StrLine f1 ∧ isFence env.cs f1 = true) (hY : ∀ l ∈ Y, StrLine l ∧ isFence env.cs l = false)
+    (hf2 : StrLine f2 ∧ isFence env.cs f2 = true)
+    (hfree : TextSwitchFree env.cs
+      (pullEvents (α := α) env.cs env.ext (B.flatten ++ (f1 ++ (Y.flatten ++ (f2 ++ X))))).1.toList = true) :
+    SameRecipe ws (parseRecipe (α := α) env (e ++ (B.flatten ++ (f1 ++ (Y.flatten ++ (f2 ++ X))))))
+      (parseRecipe (α := α) env (B.flatten ++ (f1 ++ (Y.flatten ++ (f2 ++ X))))) :=
+  a17_resSim_same ws (bl17_blank_before_front_recipe env hu e B Y f1 f2 X he hB hf1 hY hf2
+    (w6m_pullEvents_textModeFree env _ hfree))
+
+/-- **A blank or comment-only line directly behind the closing fence, every extension set.** -/
+theorem C17_line_after_frontmatter_same_recipe {α : Type} [Arith α] (ws : Char → Bool) (env : Env)
+    (hu : UwsNL env.cs) (e : List Char) (B Y : List (List Char)) (f1 f2 X : List Char)
+    (hB : ∀ l ∈ B, StrLine l ∧ (trim env.cs.uws l).isEmpty = true)
+    (hf1 : StrLine f1 ∧ isFence env.cs f1 = true) (hY : ∀ l ∈ Y, StrLine l ∧ isFence env.cs l = false)
+    (hf2 : StrLine f2 ∧ isFence env.cs f2 = true)
+    (hE : EmptyLine (lexFrom env.cs (utf8Len B.flatten + utf8Len f1 + utf8Len Y.flatten + utf8Len f2) e))
+    (hfree : TextSwitchFree env.cs
+      (pullEvents (α := α) env.cs env.ext (B.flatten ++ (f1 ++ (Y.flatten ++ (f2 ++ X))))).1.toList = true) :
+    SameRecipe ws (parseRecipe (α := α) env (B.flatten ++ (f1 ++ (Y.flatten ++ (f2 ++ (e ++ X))))))
+      (parseRecipe (α := α) env (B.flatten ++ (f1 ++ (Y.flatten ++ (f2 ++ X))))) :=
+  a17_resSim_same ws (bl17_line_after_front_recipe env hu e B Y f1 f2 X hB hf1 hY hf2 hE
+    (w6m_pullEvents_textModeFree env _ hfree))
+
+/-- **Two edits composed, every extension set**: an extra blank / comment-only line and CRLF
+    conversion of the result.  The exclusion is asked of the two LF sources (with and without the
+    line). -/
+theorem C17_crlf_after_extra_blank_line {α : Type} [Arith α] (ws : Char → Bool) (env : Env)
+    (hcs : CrlfSpec env.cs) (hu : UwsNL env.cs)
+    (u e0 e x : List Char) (L : List (List Tok)) (hlu : lex env.cs u = L.flatten) (hL : ∀ l ∈ L, IsLine l)
+    (hE0 : EmptyLine (lexFrom env.cs (utf8Len u) e0)) (hE : EmptyLine (lexFrom env.cs (utf8Len u + utf8Len e0) e))
+    (h1 : parseFrontmatter env.cs (u ++ (e0 ++ (e ++ x))) = none) (h2 : parseFrontmatter env.cs (u ++ (e0 ++ x)) = none)
+    (hs : CrlfSafe (u ++ (e0 ++ (e ++ x))))
+    (hfree' : TextSwitchFree env.cs (pullEvents (α := α) env.cs env.ext (u ++ (e0 ++ (e ++ x)))).1.toList = true)
+    (hfree : TextSwitchFree env.cs (pullEvents (α := α) env.cs env.ext (u ++ (e0 ++ x))).1.toList = true) :
+    SameRecipe ws (parseRecipe (α := α) env (crlf (u ++ (e0 ++ (e ++ x))))) (parseRecipe (α := α) env (u ++ (e0 ++ x))) :=
+  (C17_crlf_same_recipe ws env hcs hu _ hs hfree').a17_trans
+    (C17_extra_blank_line_source_same_recipe ws env hu u e0 e x L hlu hL hE0 hE h1 h2 hfree)
+
+/-- the predicate does not depend on the extension set, and it holds of every list without `>>` entries -/
+theorem C17_text_switch_free_of_no_metadata {α : Type} [Arith α] (cs : CharSpec) (evs : List (Ev α))
+    (h : ∀ ev ∈ evs, ∀ k v, ev ≠ .metadata k v) : TextSwitchFree cs evs = true := w6m_free_of_no_metadata cs evs h
+
+/-! non-vacuity: an environment with MODES ON; an event list with a `>>` entry `[mode]: steps` (a
+    mode switch, but not to `text`) satisfies the predicate; `[mode]: text` is excluded -/
+def C17_toyEnvModes : Env := ⟨toyCharSpec, ⟨Gen.EXT_MODES⟩, fun _ => none, fun _ _ => .ok, fun c => [c], 0⟩
+example : C17_toyEnvModes.ext.has Gen.EXT_MODES = true := by decide
+example : TextSwitchFree (α := Rat) toyCharSpec
+    [.metadata (buildText 3 [tk .word "[mode]".toList]) (buildText 11 [tk .word "steps".toList]),
+     .start .step, .timer ⟨⟨none, none⟩, ⟨0, 0⟩⟩, .stop .step] = true := by decide
+example : TextSwitchFree (α := Rat) toyCharSpec
+    [.metadata (buildText 3 [tk .word "[mode]".toList]) (buildText 11 [tk .word "text".toList])] = false := by decide
+-- ===== end w6c17docwf (part 1) =====
 
 end Cook
